@@ -23,6 +23,10 @@ structure Leaves (K : Bus → Bus → Prop) : Prop where
   addRule : ∀ b c r, b.isActive c = true → nRules b c < b.limits.maxRules → K b (b.updRules c (· ++ [r]))
   removeRule : ∀ b c r rs', removeRule (rulesOfConn b c) r = some rs' → K b (b.updRules c fun _ => rs')
   gcRules : ∀ b c x, b.conn? c = some x → K b (gcRules b x)
+  /-- BecomeMonitor: the filter is installed, … -/
+  installMonitor : ∀ b c rules, K b (installMonitorRules c rules b)
+  /-- … and, the names released, the connection's ordinary rules go and it joins the monitors -/
+  joinMonitors : ∀ b c x rules, K b (joinMonitors c x rules b)
   clearRules : ∀ b c, K b (clearRules b c)
   removeConn : ∀ b c, K b (removeConn c b)
   connect : ∀ b c uid gids canFd, (b.conn? c).isSome = false →
@@ -35,13 +39,20 @@ theorem lv_foldl (L : Leaves K) {α : Type} (f : Tx → α → Tx) (hf : ∀ t a
   | [], t => L.refl _
   | a :: l, t => L.trans _ _ _ (hf t a) (lv_foldl L f hf l _)
 
+theorem lv_sendStamped (L : Leaves K) (t : Tx) (to : ConnId) (m : Msg) : K t.bus (sendStamped t to m).bus := by
+  unfold sendStamped
+  have g := L.gate t.bus none (some to) (some to) m
+  rcases h : checkPolicy t.bus none (some to) (some to) m with ⟨p, err⟩
+  rw [h] at g
+  cases err with
+  | some e => dsimp only; rw [(captureError_frame _ _ _ _).1]; exact g
+  | none => exact g
+
 theorem lv_sendFromDriver (L : Leaves K) (t : Tx) (to : ConnId) (m : Msg) : K t.bus (sendFromDriver t to m).bus := by
   unfold sendFromDriver
-  have g := L.gate t.bus none (some to) (some to) (stampDriver t.bus to m)
-  rcases h : checkPolicy t.bus none (some to) (some to) (stampDriver t.bus to m) with ⟨p, err⟩
-  rw [h] at g
-  simp only [h]
-  cases err <;> exact g
+  have h := lv_sendStamped L (capture t none (some to) (stampDriver t.bus to m)) to (stampDriver t.bus to m)
+  rw [(capture_frame t none (some to) (stampDriver t.bus to m)).1] at h
+  exact h
 
 theorem lv_sendOne (L : Leaves K) (t : Tx) (s a : Option ConnId) (to : ConnId) (m : Msg) : K t.bus (sendOne t s a to m).bus := by
   unfold sendOne
@@ -50,8 +61,12 @@ theorem lv_sendOne (L : Leaves K) (t : Tx) (s a : Option ConnId) (to : ConnId) (
   rw [h] at g
   simp only [h]
   cases err with
-  | some e => exact g
-  | none => dsimp only; split <;> exact g
+  | some e => dsimp only; rw [(captureError_frame _ _ _ _).1]; exact g
+  | none =>
+    dsimp only
+    split
+    · rw [(captureError_frame _ _ _ _).1]; exact g
+    · exact g
 
 theorem lv_sendAddressed (L : Leaves K) (t : Tx) (s : Option ConnId) (a : ConnId) (m : Msg) :
     K t.bus (sendAddressed t s a m).1.bus := by
@@ -90,7 +105,13 @@ theorem lv_reply (L : Leaves K) (t : Tx) (c : ConnId) (call : Msg) (tys : List T
 theorem lv_route (L : Leaves K) (t : Tx) (c : ConnId) (m : Msg) : K t.bus (route t c m).1.bus := by
   unfold route
   repeat' split
-  all_goals first | exact lv_dispatchMatches L _ _ _ _ | exact L.refl _
+  all_goals first
+    | (rw [(capture_frame _ _ _ _).1]; exact L.refl _)
+    | (rename_i a _
+       have h := lv_dispatchMatches L (capture t (some c) (some a) m) (some c) (some a) m
+       rw [(capture_frame _ _ _ _).1] at h; exact h)
+    | (have h := lv_dispatchMatches L (capture t (some c) none m) (some c) none m
+       rw [(capture_frame _ _ _ _).1] at h; exact h)
 
 theorem lv_dropPending (L : Leaves K) (t : Tx) (c : ConnId) : K t.bus (dropPending t c).bus := by
   unfold dropPending
@@ -110,6 +131,19 @@ theorem lv_hello (L : Leaves K) (t : Tx) (c : ConnId) (m : Msg) : K t.bus (hello
   split; · exact L.refl _
   rename_i h1 h2 h3
   exact L.helloOk t c m (by simpa using h1) (by omega) (by omega)
+
+theorem lv_beMonitor (L : Leaves K) (t : Tx) (c : ConnId) (rules : List MatchRule) : K t.bus (beMonitor t c rules).bus := by
+  unfold beMonitor
+  split
+  · exact L.refl _
+  · rename_i x _
+    have h1 : K t.bus (t.mapBus (installMonitorRules c rules)).bus := L.installMonitor _ _ _
+    have h2 : K (t.mapBus (installMonitorRules c rules)).bus (releaseAll (t.mapBus (installMonitorRules c rules)) c x.owned).bus :=
+      lv_foldl L (fun t n => Dbus.Model.Bus.removeOwner t n c) (fun t n => L.removeOwner t n c) x.owned _
+    have h3 : K (releaseAll (t.mapBus (installMonitorRules c rules)) c x.owned).bus
+        ((releaseAll (t.mapBus (installMonitorRules c rules)) c x.owned).mapBus (joinMonitors c x rules)).bus :=
+      L.joinMonitors _ _ _ _
+    exact L.trans _ _ _ h1 (L.trans _ _ _ h2 h3)
 
 theorem lv_runMethod (L : Leaves K) (t : Tx) (c : ConnId) (m : Msg) (w : Method)
     (hact : t.bus.isActive c = true ∨ w = .hello) : K t.bus (runMethod t c m w).1.bus := by
@@ -174,8 +208,17 @@ theorem lv_runMethod (L : Leaves K) (t : Tx) (c : ConnId) (m : Msg) (w : Method)
       · exact lv_reply L _ _ _ _ _
     · exact L.refl _
     · exact L.refl _
-  | becomeMonitor => exact L.refl _
-  | opaqueM => exact L.refl _
+  | becomeMonitor =>
+    simp only [runMethod]
+    repeat' split
+    all_goals first
+      | exact L.refl _
+      | exact L.trans _ _ _ (lv_reply L t c m [] []) (lv_beMonitor L _ c _)
+  | opaqueM =>
+    simp only [runMethod]
+    show K t.bus (Tx.emit _ _).bus
+    rw [emit_bus, (opaque_fold_frame _ _ _).1]
+    exact L.refl _
 
 /-- what `findHandler` can return: an interface row of the table that the message's interface (if
     any) names, and one of its method rows with the message's member -/
@@ -258,9 +301,9 @@ theorem gate_active_or_hello {b : Bus} {c : ConnId} {m : Msg} {p : List Pending}
       | true => rfl
       | false => simp [hh] at h
 
-theorem lv_toDriver (L : Leaves K) (tbl : List IfaceRow) (t : Tx) (c : ConnId) (m : Msg) :
-    K t.bus (toDriver tbl t c m).1.bus := by
-  unfold Dbus.Model.Bus.toDriver
+theorem lv_toDriverCore (L : Leaves K) (tbl : List IfaceRow) (t : Tx) (c : ConnId) (m : Msg) :
+    K t.bus (toDriverCore tbl t c m).1.bus := by
+  unfold Dbus.Model.Bus.toDriverCore
   rcases hcp : checkPolicy t.bus (some c) none none m with ⟨p, e⟩
   dsimp only
   have h0 : K t.bus (t.setPending p).bus := by
@@ -277,6 +320,14 @@ theorem lv_toDriver (L : Leaves K) (tbl : List IfaceRow) (t : Tx) (c : ConnId) (
     cases e1 with
     | some e1 => exact L.trans _ _ _ h0 h1
     | none => exact L.trans _ _ _ (L.trans _ _ _ h0 h1) (lv_dispatchMatches L t1 _ _ _)
+
+theorem lv_toDriver (L : Leaves K) (tbl : List IfaceRow) (t : Tx) (c : ConnId) (m : Msg) :
+    K t.bus (toDriver tbl t c m).1.bus :=
+  lv_toDriverCore L tbl ({ t with mon := [] } : Tx) c m
+
+theorem lv_sweepMonitors (L : Leaves K) (t : Tx) : K t.bus (sweepMonitors t).bus := by
+  unfold sweepMonitors
+  exact lv_foldl L (fun (t : Tx) (x : Conn) => dropPending t x.id) (fun t x => lv_dropPending L t x.id) _ t
 
 theorem lv_finish (L : Leaves K) (b : Bus) (r : Tx × Option Err) (c : ConnId) (m : Msg) (h : K b r.1.bus) :
     K b (finish r c m).1 := by
@@ -304,16 +355,18 @@ theorem lv_dispatch (L : Leaves K) (tbl : List IfaceRow) (b : Bus) (c : ConnId) 
   unfold Dbus.Model.Bus.dispatch
   split
   · exact L.refl _
-  · split
-    · exact lv_disconnect L b c
-    · dsimp only
-      split
-      · exact L.refl _
+  · dsimp only
+    split
+    · exact L.refl _
+    · split
+      · exact lv_disconnect L b c
       · split
-        · exact lv_finish L b _ c _ (lv_toDriver L tbl ({ bus := b } : Tx) c _)
+        · exact L.refl _
         · split
-          · exact lv_disconnect L b c
-          · exact lv_finish L b _ c _ (lv_route L ({ bus := b } : Tx) c _)
+          · exact L.trans _ _ _ (lv_finish L b _ c _ (lv_toDriver L tbl ({ bus := b } : Tx) c _)) (lv_sweepMonitors L _)
+          · split
+            · exact lv_disconnect L b c
+            · exact lv_finish L b _ c _ (lv_route L ({ bus := b } : Tx) c _)
 
 /-- **every step respects K** -/
 theorem lv_step (L : Leaves K) (tbl : List IfaceRow) (b : Bus) (ev : Ev) : K b (step tbl b ev).1 := by
